@@ -90,6 +90,7 @@ class LinDom(alg.Alg):
             try:
                 e = Effect(kind, kind, p.base, p.off, symx.sizeof(ty, {}) if ty.k in ('int', 'float', 'double', 'ptr') else 1, None)
                 e.cap = self.cap_now(interp, st)
+                e.value = getattr(interp, 'cur_store_value', None) if kind == 'store' else None
                 st.calls.append(e)
             finally:
                 self._in_access = False
